@@ -60,6 +60,7 @@ type Contract struct {
 	Bounded      int
 	NoPanic      bool // claim nopanic obligations
 	Overflow     bool
+	MathArith    bool // `arith mathematical: <why>`: int results of this function are not checked against the machine range (A-ARITH)
 	OverflowOnly []string // `overflow only a b`: machine-range obligations only for results assigned to these locals / fields
 	Uses         []string
 	Vars         []LemmaVar // lemma only
@@ -472,6 +473,12 @@ func parseContractFile(path string, pkgPath string) ([]*Contract, error) {
 			cur.Bounded = n
 		case "nopanic":
 			cur.NoPanic = true
+		case "arith":
+			if !strings.HasPrefix(rest, "mathematical:") || strings.TrimSpace(strings.TrimPrefix(rest, "mathematical:")) == "" {
+				return nil, fail(fmt.Errorf("expected `arith mathematical: <reason>`"))
+			}
+			cur.MathArith = true
+			cur.Assumes = append(cur.Assumes, "A-ARITH: integer results of this function are treated as mathematical integers (not checked against the machine range): "+strings.TrimSpace(strings.TrimPrefix(rest, "mathematical:")))
 		case "overflow":
 			cur.Overflow = true
 			if strings.HasPrefix(rest, "only ") {
